@@ -197,6 +197,15 @@ func zzSymbolicEnvReg(rf int, withReg bool) *zzEnv {
 	if n > 0 {
 		e.fe.state = types.StateUp
 	}
+	// a healthy volume (all RF replicas RW) may hold a checkpoint that every replica persisted
+	if n == rf && wo == 0 && zzNondetBool("pre.checkpoint") {
+		for i := 0; i < n; i++ {
+			m := zzmodel.Replicas[zzAddrs[i]]
+			m.Chain = []string{"volume-head-001.img", "volume-snap-cp.img"}
+			m.Checkpoint = "volume-snap-cp.img"
+		}
+		e.c.Checkpoint = "volume-snap-cp.img"
+	}
 	// quiescent status: what UpdateVolStatus computes; checked independently by zzCheckInvC
 	rw := n - wo
 	e.c.RWReplicaCount = rw
